@@ -1145,6 +1145,11 @@ class FormulaManager(object):
                 if not k.is_constant():
                     raise PysmtValueError("Array initialization indexes must "
                                           "be constants")
+                # Assignments equal to the default are dropped below:
+                # the type of their index must be checked here
+                if self.env.stc.get_type(k) != idx_type:
+                    raise PysmtTypeError("Array initialization index %s is "
+                                         "not of type %s" % (k, idx_type))
                 # It is useless to represent assignments equal to the default
                 if assigned_values[k] != default:
                     args.append(k)
